@@ -125,6 +125,17 @@ pub fn run_c03(cfg: &Cfg, log: &mut Log) {
                 if p.ptr == 0 || p.ptr % p.ealign.max(1) != 0 {
                     bad.push(format!("pointer {:#x} not aligned to {}", p.ptr, p.ealign));
                 }
+                if b.len == 0 && b.esize > 0 {
+                    // an empty sequence of a sized element type: nothing is
+                    // covered, but the slice still has to sit where the writer
+                    // placed the (empty) block, inside the buffer
+                    log.count("empty_borrowed_parts_checked", 1);
+                    if p.ptr < base || p.ptr > base + bytes.len() {
+                        bad.push(format!("empty slice at {:#x} lies outside the input buffer [{:#x},+{}]", p.ptr, base, bytes.len()));
+                    } else if p.ptr - base != b.off {
+                        bad.push(format!("empty slice points at stream offset {}, the block was written at {}", p.ptr - base, b.off));
+                    }
+                }
                 if b.len > 0 {
                     if p.ptr < base || p.ptr + p.count * p.esize > base + bytes.len() {
                         bad.push(format!("[{:#x},+{}) outside the input buffer [{:#x},+{})", p.ptr, p.count * p.esize, base, bytes.len()));
